@@ -10,7 +10,7 @@
 (*          types, lookups, newexec, done, exc]                            *)
 (* verdict: [tid, step, ok, clauses]                                       *)
 (***************************************************************************)
-EXTENDS Passes, Json, IOUtils
+EXTENDS StreamsDefs, Json, IOUtils
 
 Trace == ndJsonDeserialize(IOEnv.IN_FILE)
 AppendOpt == [format |-> "TXT", charset |-> "UTF-8",
@@ -27,26 +27,6 @@ VARIABLES l,       \* next record
 tvars == <<l, g, calls, nds>>
 
 G(view, type, ds, qmd) == [view |-> view, type |-> type, ds |-> ds, qmd |-> qmd]
-
-LMet  == Lam1("e", Meth(Name("e"), "met", <<>>))
-LJets == Lam1("e", Meth(Name("e"), "jets", <<>>))
-LNest == Lam1("e", Meth(Meth(Name("e"), "jets", <<>>), "Select", <<Lam1("j", Meth(Name("j"), "pt", <<>>))>>))
-LNestTyped == Lam1("e", Meth(Meth(Name("e"), "jets", <<>>), "Select", <<Lam1("j", Meth(Name("j"), "pt", <<IntC(1)>>))>>))
-LCut == Lam1("e", Cmp(">", Meth(Name("e"), "met", <<>>), IntC(1)))
-LMetTyped == Lam1("e", Meth(Name("e"), "met", <<IntC(4)>>))
-LCutTyped == Lam1("e", Cmp(">", Meth(Name("e"), "met", <<IntC(4)>>), IntC(1)))
-LKw == Lam1("e", CallK(Attr(Name("e"), "met"), <<>>, <<"a">>, <<Meth(Name("e"), "met", <<>>)>>))
-LKwTyped == Lam1("e", Meth(Name("e"), "met", <<Meth(Name("e"), "met", <<IntC(4)>>)>>))
-Emitted(lam, inType) == IF inType # "Evt" THEN lam
-                        ELSE CASE lam = LNest -> LNestTyped [] lam = LMet -> LMetTyped
-                               [] lam = LCut -> LCutTyped [] lam = LKw -> LKwTyped [] OTHER -> lam
-StreamType(op, lam, inType) ==
-    CASE op = "Where" -> inType
-      [] inType # "Evt" -> "Any"
-      [] op = "Select" /\ lam \in {LMet, LKw} -> "int"
-      [] op = "SelectMany" /\ lam = LJets -> "Jet"
-      [] op = "Select" /\ lam = LNest -> "Iterable[int]"
-      [] OTHER -> "Any"
 
 (* the stream an action creates, per the abstract design; <<>> if it creates none *)
 Created(a, gs, n) ==
